@@ -318,6 +318,14 @@ def check(run, model, tier):
     run.floor('writer thread: places where an item is taken', len(takes), 1)
     run.floor('writer thread: places where a callback is called', len(fns), 1)
 
+    # the branch taken for the wake-up item stop() puts on the queue (`if <item> is None:`) delivers nothing by design
+    sentinel_side = set()
+    for t2_ in g.nodes:
+        if t2_.kind == 'test' and isinstance(t2_.ast, ast.Compare) and len(t2_.ast.ops) == 1 and isinstance(t2_.ast.ops[0], (ast.Is, ast.IsNot)) \
+                and isinstance(t2_.ast.left, ast.Name) and t2_.ast.left.id in item_names and isinstance(t2_.ast.comparators[0], ast.Constant) and t2_.ast.comparators[0].value is None:
+            lab_ = 'true' if isinstance(t2_.ast.ops[0], ast.Is) else 'false'
+            sentinel_side.update(m_ for m_, l_ in g.succ[t2_] if l_ == lab_)
+
     def simple_paths_counts(start, stops, weight):
         """(min, max) number of weight-nodes on simple paths from start to a node of `stops` (or the exit); normal edges only"""
         res = []
@@ -327,6 +335,8 @@ def check(run, model, tier):
             budget[0] -= 1
             if budget[0] < 0:
                 raise AnalysisError('writer thread: too many paths')
+            if n in sentinel_side:
+                return          # the way of the wake-up item (`if item is None: ...`): it carries no line
             if n in stops or n is g.exit:
                 res.append(k)
                 return
